@@ -5,6 +5,8 @@ qm_c06 — driver for M-Heap. One executor state; requests (S-expressions, one p
 
   (init)
   (config dead-roots 0|1)                      model the repair of F17 (source contains release_dead_roots)
+  (config select-waits 0|1)                    model notes/C05-fixes/01 (source has SelectState.unanswered)
+  (notify-pending awaiter awaited)             notify_pending (the answer "not finished yet")
   (program (canon n*) (builtins name*))        tables used by `equal` and builtin calls
   (receivers (fcompat (fid kind*)*) (empty fid*))  parameter compatibility / body-less functions (select)
   (i pid (select now))                         a `Select` instruction at clock `now` (stepSelect)
@@ -45,6 +47,11 @@ structure DState where
   /-- the source under test contains `release_dead_roots` (repair of F17): `finish` is followed by
   `releaseDeadRoots`, `notify-message` is `notifyMessageGuarded` -/
   deadRoots : Bool := false
+  /-- the source under test has `SelectState.unanswered` (notes/C05-fixes/01): a select with process
+  sources evaluates nothing until every target has been answered -/
+  selectWaits : Bool := false
+  /-- `select_state.unanswered` of every process: (process, target) pairs -/
+  unanswered : List (Nat × Nat) := []
   deriving Inhabited
 
 partial def parseVal : Sx → Option Val
@@ -252,7 +259,16 @@ def answerP (d : DState) (pid : Nat) (out : String) : DState × String :=
 
 def c06Step (d : DState) (req : List Sx) : DState × String :=
   match req with
-  | [.list [.atom "init"]] => answer { deadRoots := d.deadRoots } "ok"
+  | [.list [.atom "init"]] => answer { deadRoots := d.deadRoots, selectWaits := d.selectWaits } "ok"
+  | [.list [.atom "config", .atom "select-waits", b]] =>
+    match parseBool b with
+    | some b => answer { d with selectWaits := b } "ok"
+    | none => (d, "bad-request")
+  | [.list [.atom "notify-pending", a, b]] =>
+    -- `notify_pending`: the target's worker answered "not finished yet" (no values involved)
+    match a.asNat, b.asNat with
+    | some a, some b => answer { d with unanswered := d.unanswered.filter (fun e => !(e.1 == a && e.2 == b)) } "ok"
+    | _, _ => (d, "bad-request")
   | [.list [.atom "config", .atom "dead-roots", b]] =>
     match parseBool b with
     | some b => answer { d with deadRoots := b } "ok"
@@ -278,7 +294,14 @@ def c06Step (d : DState) (req : List Sx) : DState × String :=
     match pid.asNat, now.asNat with
     | some pid, some now =>
       let before := selectSources d.s pid
-      let (s, o) := stepSelect (mkSelEnv d pid now) d.s pid
+      let pending := d.selectWaits && d.unanswered.any (fun e => e.1 == pid)
+      let (s, o) := if d.selectWaits then stepSelectWaiting (mkSelEnv d pid now) pending d.s pid
+        else stepSelect (mkSelEnv d pid now) d.s pid
+      -- `initialize_select` records the process sources as unanswered; the list goes with the state
+      let unanswered := match o with
+        | .act (.await ts _) => ts.map (fun t => (pid, t)) ++ d.unanswered.filter (fun e => e.1 != pid)
+        | _ => if hasSelectState s pid then d.unanswered else d.unanswered.filter (fun e => e.1 != pid)
+      let d := { d with unanswered := unanswered }
       -- `complete_select` also clears `awaiting_failed` for the process sources of the select
       let failed := if !before.isEmpty && !hasSelectState s pid
         then d.failed.filter (fun e => !(e.1 == pid && (pidTargets before).contains e.2)) else d.failed
@@ -296,7 +319,9 @@ def c06Step (d : DState) (req : List Sx) : DState × String :=
       let still := match d.s.getProc a with
         | some p => p.result.isNone && (aget p.awaiting b).isSome
         | none => false
-      answer { d with failed := if still then (a, b) :: d.failed else d.failed } "ok"
+      answer { d with failed := if still then (a, b) :: d.failed else d.failed,
+                      unanswered := if still then d.unanswered.filter (fun e => !(e.1 == a && e.2 == b))
+                                    else d.unanswered } "ok"
     | _, _ => (d, "bad-request")
   | [.list [.atom "popframe", pid]] =>
     match pid.asNat with
@@ -316,6 +341,14 @@ def c06Step (d : DState) (req : List Sx) : DState × String :=
       -- (a stack underflow at completion returns early: nobody is notified)
       let notified := match o with | .fail => false | _ => true
       let failed := if failedNow && notified then stillAwaiting.map (fun a => (a, pid)) ++ d.failed else d.failed
+      -- answers given by the same-executor notification: a failure always, a value when the
+      -- injection with an empty heap list succeeds (the value mentions no heap slot)
+      let valueStored := match s.getProc pid with
+        | some p => match p.result with | some (.ok v) => v.idxs.isEmpty | _ => false
+        | none => false
+      let answered := if notified && (failedNow || valueStored) then stillAwaiting else []
+      let unanswered := d.unanswered.filter (fun e => !(e.2 == pid && answered.contains e.1))
+      let d := { d with unanswered := unanswered }
       let s := if notified then notifyAwaiters s pid else s
       let s := if d.deadRoots then releaseDeadRoots s pid else s
       let failed := if d.deadRoots then failed.filter (fun e => e.1 != pid ||
@@ -332,7 +365,14 @@ def c06Step (d : DState) (req : List Sx) : DState × String :=
   | [.list [.atom "notify-result", a, b, v, hd]] =>
     match a.asNat, b.asNat, parseVal v, parseHexList hd with
     | some a, some b, some v, some hd =>
-      let (s, o) := notifyResult d.s a b v hd; answer { d with s := s } (renderOut s o)
+      let still := match d.s.getProc a with
+        | some p => p.result.isNone && (aget p.awaiting b).isSome
+        | none => false
+      let (s, o) := notifyResult d.s a b v hd
+      -- `mark_answered` sits after the injection inside the still-awaiting branch
+      let stored := still && (match o with | .fail => false | _ => true)
+      let unanswered := if stored then d.unanswered.filter (fun e => !(e.1 == a && e.2 == b)) else d.unanswered
+      answer { d with s := s, unanswered := unanswered } (renderOut s o)
     | _, _, _, _ => (d, "bad-request")
   | [.list [.atom "notify-spawn", id, p, f]] =>
     match id.asNat, p.asNat, f.asNat with
